@@ -61,6 +61,8 @@ func runC08(c *Ctx, r *Report) {
 	checkOperationConstructed(c, r, "C08/operation-constructed")
 	importFoundation(c, r, "C08", "read-loop")
 	importFoundation(c, r, "C08", "read-returns-dequeued")
+	r.Rule("C08/closed-result-zero", "the reply poller closes its result channel without an answer only once sendRPC's own cancel-only context is over (a call returns its reply or an error, never an empty success)", 1)
+	checkClosedResultZero(c, r, "C08/closed-result-zero")
 	r.Rule("C08/submatch-guarded", "in the NETCONF driver every index into a FindSubmatch result is dominated by a test that the pattern matched (a reply without the expected element yields an error, never a panic)", 2)
 	checkSubmatchGuarded(c, r, "C08/submatch-guarded", []string{"driver/netconf"})
 	importFoundation(c, r, "C08", "netconf-framing")
